@@ -284,7 +284,8 @@ def check_property(pid, tier, repo, scratch, seed):
             if a['vac']:
                 vac.append(a['vac'])
                 if a['vac']['not_rejected']:
-                    inconclusive.append({'why': 'vacuous-precondition', 'unit': unit, 'detail': a['vac']['not_rejected']})
+                    inconclusive.append({'why': 'vacuity-probe-did-not-run (the unit does not compile)' if a['vac']['not_rejected'] == ['<no verus result>'] else 'vacuous-precondition',
+                                         'unit': unit, 'detail': a['vac']['not_rejected']})
         extra = []
         for fu in efut:
             res = fu.result()
